@@ -197,6 +197,19 @@ func (r *runner) mflush() {
 	r.c.Branch("meta-flush")
 }
 
+// mflushfail / iflushfail: a flush that returns an error (kv family commit of a dictionary fails);
+// nothing may change for the callers: every name keeps its id.
+func (r *runner) mflushfail() {
+	out := r.guard("mflushfail", func() string { return okOut(r.s.metaFlushFail()) })
+	r.o.syncDone() // Sequence.Sync() is the first step and succeeded
+	r.c.Branch("meta-flush-" + strings.ReplaceAll(out, " ", "-"))
+}
+
+func (r *runner) iflushfail(shard int) {
+	out := r.guard(fmt.Sprintf("iflushfail %d", shard), func() string { return okOut(r.s.indexFlushFail(shard)) })
+	r.c.Branch("index-flush-" + strings.ReplaceAll(out, " ", "-"))
+}
+
 func (r *runner) iprepare(shard int) {
 	r.guard(fmt.Sprintf("iprepare %d", shard), func() string { r.s.shards[shard].PrepareFlush(); return "ok" })
 	r.c.Branch("index-prepare")
@@ -397,6 +410,10 @@ func (area) Run(c *core.Ctx) error {
 			err = witnessSchemaFlushWindow(c, db)
 		case 6:
 			err = witnessLookupVsFlush(c, db)
+		case 7:
+			err = witnessFailedFlush(c, db)
+		case 8:
+			err = witnessSchemaCacheRace(c, db)
 		default:
 			err = randomCase(c, rng, db)
 		}
@@ -489,6 +506,21 @@ func randomCase(c *core.Ctx, rng *rand.Rand, db string) error {
 				r.mseries(rng.Intn(nShards), pick(rng, r.metricIDs, 6))
 			default:
 				r.findTV(pick(rng, r.tagKeyIDs, 6), rng.Intn(nVals))
+			}
+		case k < 90:
+			// mostly the realistic shape: PrepareFlush, some more names, then the flush fails
+			if rng.Intn(2) == 0 {
+				if rng.Intn(3) != 0 {
+					r.mprepare()
+					r.metric(rng.Intn(nNS), rng.Intn(nMetric))
+				}
+				r.mflushfail()
+			} else {
+				sh := rng.Intn(nShards)
+				if rng.Intn(3) != 0 {
+					r.iprepare(sh)
+				}
+				r.iflushfail(sh)
 			}
 		case k < 91:
 			r.reopen()
